@@ -152,6 +152,17 @@ class DocsLeg(object):
                 return Failure("%s = %r, expected %r (missing %r)" % (what, list(got), want_dirs, missing[:3]), sig=sig)
             return None
 
+        # another iterator over another document, used in between, does not change what this one reports
+        it_first = DataIterator(path, **kw)
+        n_first = len(list(it_first))
+        other_doc = "##other-directive 1\n##other-directive 2\nchrO\tsrc\tgene\t1\t5\t.\t+\t.\tID=o1\n"
+        it_other = DataIterator(ctx.write("other.gff", other_doc), **kw)
+        list(it_other)
+        if n_first != want_n or list(it_first.directives) != want_dirs:
+            return Failure("DataIterator.directives = %r after another DataIterator was used; this document's are %r"
+                           % (list(it_first.directives), want_dirs), sig={"kind": "directives-shared"})
+        if list(it_other.directives) != ["other-directive 1", "other-directive 2"]:
+            return Failure("second DataIterator reports directives %r" % list(it_other.directives), sig={"kind": "directives-shared"})
         for form in ("path", "string"):
             ikw = dict(kw)
             data = path
